@@ -17,6 +17,7 @@ import H263V.Lemmas.BasePicture
 import H263V.Lemmas.PlusPicture
 import H263V.Lemmas.IdctSpec
 import H263V.Lemmas.ReconSpec
+import H263V.Lemmas.LevelArrays
 namespace H263V.Thm.C02
 open H263V H263V.Gather H263V.Spec.Vlc
 
@@ -110,6 +111,25 @@ theorem idct_channel_pointwise (levels : Array Rle.Dct) (output : Array Nat) (bp
     (r : Array Nat) (h : Idct.idctChannel levels output bpl spl = .ok r) :
     r.size = output.size ∧ ∀ k, r.getD k 0 = idctAt levels bpl spl output k :=
   idctChannel_spec levels output bpl spl hb hs r h
+
+open H263V.State H263V.Lemmas.LevelArrays H263V.Lemmas.PictureRoundTrip in
+/-- **Macroblock / block position and quantizer tracking.**  For any list of macroblock descriptions run through the (bit-free)
+macroblock loop from any loop state, with `m >= 1` macroblocks per line: there is the chain `qs` of quantizers in force (`QChain`:
+each coded macroblock's quantizer is `update_quant` — clamp(1, 31, previous + DQUANT), C11 — of the previous one, a not-coded
+macroblock keeps it), the type array grows by the macroblocks' types (INTER for not-coded ones), and the coefficient arrays are
+the previous arrays with exactly these slots rewritten: luma slot `id` — column `id % 2m`, row `id / 2m` of the 8x8-block grid —
+holds block `id % 2m % 2 + 2 * (id / 2m % 2)` of macroblock `id % 2m / 2 + id / 2m / 2 * m`, chroma slot `id` holds block 4 / 5 of
+macroblock `id`, each expanded (`inverseRleBlock`: zig-zag placement, dequantisation, shape; C11) with THAT macroblock's quantizer;
+slots of not-coded macroblocks, of blocks without coefficients and of macroblocks outside the list keep their content.  These are
+the slots `idct_channel` reads for the samples of that block (`idct_channel_pointwise`). -/
+theorem level_arrays (hdr : PicHdr) (dims : Option (Nat × Nat)) (running m : Nat) (hm : 1 ≤ m) (mbs : List Spec.Syntax.MbD)
+    (l l' : Loop) (h : semMbs hdr dims running m mbs l = .ok l') :
+    ∃ qs, QChain l.quant mbs qs ∧ l'.types = l.types ++ (mbs.map typeOf).toArray ∧
+      (l'.lumaLv.size = l.lumaLv.size ∧
+        ∀ id, l'.lumaLv.getD id .zero = lumaLvAt m l.types.size mbs qs (l.lumaLv.getD id .zero) id) ∧
+      (l'.cbLv.size = l.cbLv.size ∧ ∀ id, l'.cbLv.getD id .zero = chromaLvAt l.types.size mbs qs 4 (l.cbLv.getD id .zero) id) ∧
+      (l'.crLv.size = l.crLv.size ∧ ∀ id, l'.crLv.getD id .zero = chromaLvAt l.types.size mbs qs 5 (l.crLv.getD id .zero) id) :=
+  semMbs_levels hdr dims running m hm mbs l l' h
 
 open H263V.State H263V.Lemmas.ReconSpec in
 /-- **Every sample of an intra picture.**  The reconstruction step of `decode_next_picture` for a picture without INTER macroblocks
